@@ -839,6 +839,48 @@ pub fn check_model(r: &ScalableRecipe, valid: bool) -> Verdict {
             "timer {i} has neither name nor quantity"
         );
     }
+    // the convenience getters of relations, modifiers and content say what the data says
+    for (i, igr) in r.ingredients.iter().enumerate() {
+        let rel = &igr.relation;
+        let to = rel.references_to();
+        let views_ok = rel.is_definition() == to.is_none()
+            && rel.is_regular_reference() == matches!(to, Some((_, IngredientReferenceTarget::Ingredient)))
+            && rel.is_intermediate_reference() == matches!(to, Some((_, IngredientReferenceTarget::Step | IngredientReferenceTarget::Section)))
+            && rel.is_defined_in_step().is_some() == to.is_none()
+            && (to.is_none() || rel.referenced_from().is_empty());
+        vensure!(views_ok, "c06.relation-views-disagree", "ingredient {i} ({:?}): the getters of its relation contradict each other: {rel:?}", igr.name);
+        let m = igr.modifiers();
+        vensure!(
+            m.is_hidden() == m.contains(Modifiers::HIDDEN) && m.is_optional() == m.contains(Modifiers::OPT) && m.is_recipe() == m.contains(Modifiers::RECIPE) && m.is_reference() == m.contains(Modifiers::REF) && m.should_be_listed() == !m.intersects(Modifiers::HIDDEN | Modifiers::REF),
+            "c06.modifier-views-disagree",
+            "ingredient {i} ({:?}): modifier getters contradict the bits {m:?}",
+            igr.name
+        );
+        // (an ingredient marked as a recipe shows the file stem of its name: not constrained here)
+        if !m.contains(Modifiers::RECIPE) || igr.alias.is_some() {
+            vensure!(igr.display_name() == igr.alias.as_deref().unwrap_or(&igr.name), "c06.display-name", "ingredient {i}: display name {:?}, name {:?}, alias {:?}", igr.display_name(), igr.name, igr.alias);
+        }
+    }
+    for (i, cw) in r.cookware.iter().enumerate() {
+        let rel = &cw.relation;
+        let to = rel.references_to();
+        vensure!(
+            rel.is_definition() == to.is_none() && rel.is_reference() == to.is_some() && rel.is_defined_in_step().is_some() == to.is_none() && (to.is_none() || rel.referenced_from().is_empty()),
+            "c06.relation-views-disagree",
+            "cookware {i} ({:?}): the getters of its relation contradict each other: {rel:?}",
+            cw.name
+        );
+        vensure!(cw.display_name() == cw.alias.as_deref().unwrap_or(&cw.name), "c06.display-name", "cookware {i}: display name {:?}, name {:?}, alias {:?}", cw.display_name(), cw.name, cw.alias);
+    }
+    for sec in &r.sections {
+        for c in &sec.content {
+            let ok = match c {
+                Content::Step(s) => c.is_step() && !c.is_text() && std::ptr::eq(c.unwrap_step(), s),
+                Content::Text(t) => c.is_text() && !c.is_step() && c.unwrap_text() == t,
+            };
+            vensure!(ok, "c06.content-views-disagree", "content getters contradict the variant: {c:?}");
+        }
+    }
     Ok(())
 }
 
